@@ -16,6 +16,7 @@ const MAX_INITIAL_TIMESTAMP: u32 = 16777215;
 /// Due to the nature of the RTMP chunk protocol it is required that every byte going through the
 /// wire is sent to the same `ChunkDeserializer` instance, as future chunks can rely on previous
 /// chunks, so any chunks missing from the stream may cause deserialization errors.
+#[cfg_attr(feature = "verif", derive(Clone))]
 pub struct ChunkDeserializer {
     max_chunk_size: usize,
     current_header_format: ChunkHeaderFormat,
@@ -32,6 +33,7 @@ enum ParsedValue<T> {
     Value { val: T, next_index: u32 },
 }
 
+#[cfg_attr(feature = "verif", derive(Clone))]
 enum ParseStage {
     Csid,
     InitialTimestamp,
@@ -461,6 +463,10 @@ fn get_csid(buffer: &[u8]) -> ParsedValue<u32> {
         },
     }
 }
+
+#[cfg(feature = "verif")]
+#[path = "verif_deserializer.rs"]
+mod verif;
 
 #[cfg(test)]
 mod tests {
